@@ -18,6 +18,9 @@ import EasyMl.Lemmas.InteropNames
 import EasyMl.Lemmas.MatrixViewEval
 import EasyMl.Lemmas.PartViews
 import EasyMl.Lemmas.ViewIterators
+import EasyMl.Lemmas.ViewConsumers
+import EasyMl.Props.C03
+import EasyMl.Props.C07
 
 namespace EasyMl.C12
 open EasyMl EasyMl.Spec EasyMl.Fallible EasyMl.MatrixView
@@ -46,7 +49,7 @@ theorem mview_get_eq_spec (e : MExpr) (hle : e.LeavesOk) :
 
 /-- **range_size_clipped.**  The size of a range view is the request clipped to the source:
     `min(start + length, source) − start` on each axis (0 for a range that starts beyond it). -/
-theorem range_size_clipped (e : MExpr) (rows columns : IndexRange) :
+theorem range_size_clipped (e : MExpr) (rows columns : Fallible.IndexRange) :
     (MExpr.range e rows columns).size =
       (min (rows.start + rows.length) e.size.1 - rows.start,
        min (columns.start + columns.length) e.size.2 - columns.start) := rfl
@@ -84,7 +87,7 @@ theorem mview_unchecked_eq_checked (e : MExpr) (hle : e.LeavesOk) (v : MViewU)
 /-- The designated cells, adaptor by adaptor: a range shifts by its starts, a reversal mirrors
     the flagged axes, a map and the tensor round trip change nothing (**interop_roundtrip**:
     matrix → tensor → matrix is the identity mapping). -/
-theorem cell_equations (e : MExpr) (rows columns : IndexRange) (fr fc : Bool) (i j : Nat) :
+theorem cell_equations (e : MExpr) (rows columns : Fallible.IndexRange) (fr fc : Bool) (i j : Nat) :
     ((MExpr.range e rows columns).cell i j =
       if i < (MExpr.range e rows columns).size.1 ∧ j < (MExpr.range e rows columns).size.2 then
         e.cell (i + rows.start) (j + columns.start) else none) ∧
@@ -196,13 +199,187 @@ example : Iter.collect (Iter.refNext Iter.rowMajorNext (MExpr.swapped (MExpr.lea
     .ok ([some (some 0), some (some 1), none], Iter.rowMajorState 2 1 3) := by
   rfl
 
+/-! ## Consumers of a view stack
+
+  The `consume` operations of the correspondence feed a view stack to operators, iterators and
+  the determinant.  What such a consumer sees is `MViewU.elements` of the model's `eval e`; the
+  theorems below show it is the specified view `MExpr.elements e` (size `MExpr.size`, element of
+  the designated `MExpr.cell`) and instantiate the consumers' own models — C03's
+  `mElementwise` / `mNeg` / `mScalarOp` / `mMatMul`, C09's diagonal iterator, C07's
+  `determinantTensor` — on it. -/
+
+/-- **A consumer of `eval e` sees the specified view.**  For every buildable composition the
+    model's view, read through the source's elements `elem`, *is* the specification's view — the
+    same sizes and the same element at every index, absent outside — and a non-empty one
+    satisfies the `MatrixRef` contract C03's theorems assume, with the row-major element list of
+    the specification. -/
+theorem consumers_see_spec {α : Type} (e : MExpr) (hle : e.LeavesOk) (hb : e.Buildable = true)
+    (elem : Nat → α) :
+    (∃ v, e.eval Arith.fixed = .ok (.ok v) ∧ v.elements elem = e.elements elem) ∧
+    (1 ≤ e.size.1 → 1 ≤ e.size.2 → (e.elements elem).WF) ∧
+    (e.elements elem).elems = e.rowMajorElements elem :=
+  ⟨eval_elements_eq_spec e hle hb elem, elements_WF e elem, rfl⟩
+
+/-- **`+` / `-` with a view stack as the left or the right operand** (`consume add`, `sub`): with
+    any well-formed operand `R` of the same size the operator returns the matrix of that size
+    whose entry `(i, j)` is `op (element of cell (i,j)) (R[i,j])` resp. `op (R[i,j]) (element)`;
+    with an operand of another size it panics as documented. -/
+theorem consume_elementwise {α : Type} [Inhabited α] (op : α → α → α) (e : MExpr) (elem : Nat → α)
+    (h1 : 1 ≤ e.size.1) (h2 : 1 ≤ e.size.2) (R : EasyMl.Arith.MOperand α) (hR : R.WF) :
+    (R.size = e.size →
+      (∃ M, EasyMl.Arith.mElementwise op (.view (e.elements elem)) R = .ok M ∧
+        (M.rows, M.columns) = e.size ∧
+        ∀ i j b, i < e.size.1 → j < e.size.2 → R.asView.get i j = some b →
+          M.tryGet i j = some (op (e.elemAt elem i j) b)) ∧
+      (∃ M, EasyMl.Arith.mElementwise op R (.view (e.elements elem)) = .ok M ∧
+        (M.rows, M.columns) = e.size ∧
+        ∀ i j b, i < e.size.1 → j < e.size.2 → R.asView.get i j = some b →
+          M.tryGet i j = some (op b (e.elemAt elem i j)))) ∧
+    (R.size ≠ e.size →
+      EasyMl.Arith.mElementwise op (.view (e.elements elem)) R = .panic .explicit) := by
+  have hV : (EasyMl.Arith.MOperand.view (e.elements elem)).WF := elements_WF e elem h1 h2
+  constructor
+  · intro hs
+    constructor
+    · obtain ⟨M, hM, hsz, hget⟩ := (C03.mElementwise_get op (.view (e.elements elem)) R hV hR).1 hs.symm
+      refine ⟨M, hM, hsz, ?_⟩
+      intro i j b hi hj hb
+      rw [hget i j]
+      show (match (e.elements elem).get i j, R.asView.get i j with
+        | some a, some b => some (op a b) | _, _ => none) = _
+      rw [elements_get e elem i j hi hj, hb]
+    · obtain ⟨M, hM, hsz, hget⟩ := (C03.mElementwise_get op R (.view (e.elements elem)) hR hV).1 hs
+      refine ⟨M, hM, by rw [hsz, hs], ?_⟩
+      intro i j b hi hj hb
+      rw [hget i j]
+      show (match R.asView.get i j, (e.elements elem).get i j with
+        | some a, some b => some (op a b) | _, _ => none) = _
+      rw [elements_get e elem i j hi hj, hb]
+  · intro hs
+    exact (C03.mElementwise_get op (.view (e.elements elem)) R hV hR).2 (fun h => hs h.symm)
+
+/-- `consume add`: a view stack plus itself is the matrix of its elements doubled. -/
+theorem consume_add_self {α : Type} [Inhabited α] [Add α] (e : MExpr) (elem : Nat → α)
+    (h1 : 1 ≤ e.size.1) (h2 : 1 ≤ e.size.2) :
+    ∃ M, EasyMl.Arith.mElementwise (· + ·) (.view (e.elements elem)) (.view (e.elements elem)) = .ok M ∧
+      (M.rows, M.columns) = e.size ∧
+      ∀ i j, i < e.size.1 → j < e.size.2 →
+        M.tryGet i j = some (e.elemAt elem i j + e.elemAt elem i j) := by
+  have hV : (EasyMl.Arith.MOperand.view (e.elements elem)).WF := elements_WF e elem h1 h2
+  obtain ⟨⟨M, hM, hsz, hget⟩, _⟩ := (consume_elementwise (· + ·) e elem h1 h2 (.view (e.elements elem)) hV).1 rfl
+  exact ⟨M, hM, hsz, fun i j hi hj => hget i j _ hi hj (elements_get e elem i j hi hj)⟩
+
+/-- `consume neg` / `consume scalar`: unary minus and the scalar broadcasts over a view stack
+    apply the function to the element of every designated cell and keep the size. -/
+theorem consume_map {α : Type} [Inhabited α] (e : MExpr) (elem : Nat → α)
+    (h1 : 1 ≤ e.size.1) (h2 : 1 ≤ e.size.2) :
+    (∀ [Neg α], ∃ M, EasyMl.Arith.mNeg (.view (e.elements elem)) = .ok M ∧ (M.rows, M.columns) = e.size ∧
+      ∀ i j, i < e.size.1 → j < e.size.2 → M.tryGet i j = some (- e.elemAt elem i j)) ∧
+    (∀ (op : α → α → α) (s : α), ∃ M, EasyMl.Arith.mScalarOp op (.view (e.elements elem)) s = .ok M ∧
+      (M.rows, M.columns) = e.size ∧
+      ∀ i j, i < e.size.1 → j < e.size.2 → M.tryGet i j = some (op (e.elemAt elem i j) s)) := by
+  have hV : (EasyMl.Arith.MOperand.view (e.elements elem)).WF := elements_WF e elem h1 h2
+  constructor
+  · intro _
+    obtain ⟨M, hM, hsz, hget⟩ := C03.mNeg_get (.view (e.elements elem)) hV
+    refine ⟨M, hM, hsz, fun i j hi hj => ?_⟩
+    rw [hget i j]
+    show ((e.elements elem).get i j).map _ = _
+    rw [elements_get e elem i j hi hj]; rfl
+  · intro op s
+    obtain ⟨M, hM, hsz, hget⟩ := C03.mScalarOp_get op (.view (e.elements elem)) s hV
+    refine ⟨M, hM, hsz, fun i j hi hj => ?_⟩
+    rw [hget i j]
+    show ((e.elements elem).get i j).map _ = _
+    rw [elements_get e elem i j hi hj]; rfl
+
+/-- `consume mul` / `consume tmul`: the matrix products of a view stack with its transposition
+    (`MExpr.swapped`): `(A·Aᵀ)[i,k] = Σ_p A[i,p]·A[k,p]` and `(Aᵀ·A)[i,k] = Σ_p A[p,i]·A[p,k]`,
+    folded from the left, of sizes `rows × rows` and `columns × columns`. -/
+theorem consume_mul {α : Type} [Inhabited α] [Add α] [Mul α] [Zero α] (e : MExpr) (elem : Nat → α)
+    (h1 : 1 ≤ e.size.1) (h2 : 1 ≤ e.size.2) :
+    (∃ M, EasyMl.Arith.mMatMul (e.elements elem) ((MExpr.swapped e).elements elem) = .ok M ∧
+      M.rows = e.size.1 ∧ M.columns = e.size.1 ∧
+      ∀ i k, i < e.size.1 → k < e.size.1 →
+        M.tryGet i k = some (EasyMl.Arith.leftSum (fun p => e.elemAt elem i p * e.elemAt elem k p) (e.size.2 - 1))) ∧
+    (∃ M, EasyMl.Arith.mMatMul ((MExpr.swapped e).elements elem) (e.elements elem) = .ok M ∧
+      M.rows = e.size.2 ∧ M.columns = e.size.2 ∧
+      ∀ i k, i < e.size.2 → k < e.size.2 →
+        M.tryGet i k = some (EasyMl.Arith.leftSum (fun p => e.elemAt elem p i * e.elemAt elem p k) (e.size.1 - 1))) := by
+  have hV := elements_WF e elem h1 h2
+  have hT : ((MExpr.swapped e).elements elem).WF := elements_WF (MExpr.swapped e) elem h2 h1
+  have hA := elements_hasEntries e elem
+  have hB : ((MExpr.swapped e).elements elem).HasEntries (fun p k => e.elemAt elem k p) := by
+    intro i j hi hj
+    exact elements_hasEntries e elem j i hj hi
+  constructor
+  · obtain ⟨M, hM, hr, hc, hget⟩ := (C03.mMatMul_get_eq_sum (e.elements elem) ((MExpr.swapped e).elements elem) hV hT).1
+      (e.size.2 - 1) (by show e.size.2 = _; omega) (by show e.size.2 = _; omega) _ _ hA hB
+    exact ⟨M, hM, hr, hc, fun i k hi hk => hget i k hi hk⟩
+  · obtain ⟨M, hM, hr, hc, hget⟩ := (C03.mMatMul_get_eq_sum ((MExpr.swapped e).elements elem) (e.elements elem) hT hV).1
+      (e.size.1 - 1) (by show e.size.1 = _; omega) (by show e.size.1 = _; omega) _ _ hB hA
+    exact ⟨M, hM, hr, hc, fun i k hi hk => hget i k hi hk⟩
+
+/-- Non-vacuity of the operator theorems: the 1×2 leaf holding its offsets `[0, 1]` is a
+    non-empty stack; `A·Aᵀ` is the 1×1 matrix `[0·0 + 1·1]`, `Aᵀ·A` has entry `(1,1)` equal to 1,
+    and the doubled elements are `[0, 2]`. -/
+example : 1 ≤ (MExpr.leaf 1 2).size.1 ∧ 1 ≤ (MExpr.leaf 1 2).size.2 ∧
+    EasyMl.Arith.leftSum (fun p => (MExpr.leaf 1 2).elemAt (fun o => (o : Int)) 0 p *
+      (MExpr.leaf 1 2).elemAt (fun o => (o : Int)) 0 p) ((MExpr.leaf 1 2).size.2 - 1) = 1 ∧
+    EasyMl.Arith.leftSum (fun p => (MExpr.leaf 1 2).elemAt (fun o => (o : Int)) p 1 *
+      (MExpr.leaf 1 2).elemAt (fun o => (o : Int)) p 1) ((MExpr.leaf 1 2).size.1 - 1) = 1 ∧
+    ((MExpr.leaf 1 2).rowMajorElements (fun o => (o : Int))).map (fun a => a + a) = [0, 2] := by
+  refine ⟨by decide, by decide, by decide, by decide, by decide⟩
+
+/-- `consume diag`: the diagonal iterator (C09's model, reference flavour) over a view stack
+    yields at call `k` the cell of index `(k, k)` while `k < min rows columns`, then `None`; never
+    a panic; the elements so enumerated are `MExpr.diagonalElements`. -/
+theorem consume_diagonal (e : MExpr) (n : Nat) :
+    Iter.collect (Iter.refNext Iter.lineNext e.msource.cell) n (Iter.LineIter.newDiagonal e.size.1 e.size.2) =
+      .ok ((List.range n).map (fun k => if k < min e.size.1 e.size.2 then some (e.cell k k) else none),
+           Iter.lineState .diagonal (min e.size.1 e.size.2) n) :=
+  diagonal_ref_collect e n
+
+/-- `consume det`: the determinant through the tensor route (`determinant_tensor`,
+    `TensorView::determinant` over `TensorRefMatrix`; C07's model) of the view the model builds is
+    that of the specified view: `None` for a non-square stack, and for a square one of side `n`
+    **`Matrix.det` of the elements of the designated cells** (any commutative ring). -/
+theorem consume_det {R : Type} [CommRing R] [Inhabited R] (e : MExpr) (hle : e.LeavesOk)
+    (hb : e.Buildable = true) (elem : Nat → R) (h1 : 1 ≤ e.size.1) :
+    ∃ v, e.eval Arith.fixed = .ok (.ok v) ∧
+      Det.determinantTensor (toDetView (v.elements elem)) =
+        Det.determinantTensor (toDetView (e.elements elem)) ∧
+      (e.size.1 ≠ e.size.2 → Det.determinantTensor (toDetView (e.elements elem)) = none) ∧
+      (∀ hsq : e.size.1 = e.size.2,
+        Det.determinantTensor (toDetView (e.elements elem)) =
+          some (Matrix.of fun i j : Fin e.size.1 => e.elemAt elem i j).det) := by
+  obtain ⟨v, hv, hel⟩ := eval_elements_eq_spec e hle hb elem
+  refine ⟨v, hv, by rw [hel], ?_, ?_⟩
+  · intro hns
+    exact (C07.det_none_iff_nonsquare (toDetView (e.elements elem)) h1).mpr hns
+  · intro hsq
+    have hview : toDetView (e.elements elem) =
+        ⟨e.size.1, e.size.1, fun r c => ((e.cell r c).map elem).getD default⟩ := by
+      simp only [toDetView, MExpr.elements, ← hsq]
+    rw [hview, C07.determinantTensor_eq_det e.size.1 h1]
+    rfl
+
+/-- Non-vacuity: the 2×2 top-left range of a 2×3 leaf holding its offsets has determinant
+    `0·4 − 1·3 = −3`; its diagonal is cells 0 and 4. -/
+example : (MExpr.range (MExpr.leaf 2 3) ⟨0, 2⟩ ⟨0, 2⟩).diagonalElements (fun o => (o : Int)) = [0, 4] ∧
+    (Matrix.of fun i j : Fin 2 =>
+      (MExpr.range (MExpr.leaf 2 3) ⟨0, 2⟩ ⟨0, 2⟩).elemAt (fun o => (o : Int)) i j).det = -3 := by
+  refine ⟨by decide, ?_⟩
+  rw [Matrix.det_fin_two]
+  decide
+
 /-! ## The wrappers are positional: dimension names never matter -/
 
 /-- **`MatrixRefTensor` is positional.**  Over any 2-dimensional tensor view its rows and columns
     are the first and the second length and index `(r, c)` reads `[r, c]`; renaming the tensor's
     dimensions (to anything: "row"/"column" swapped, the empty name, …) gives the very same
     matrix view. -/
-theorem matrix_ref_tensor_positional {ν : Type} [DecidableEq ν] (t : TView ν) (a b : ν × Nat)
+theorem matrix_ref_tensor_positional {ν : Type} [DecidableEq ν] (t : Fallible.TView ν) (a b : ν × Nat)
     (h : t.shape = [a, b]) (m1 m2 : ν) :
     MView.ofTensor t = .ok ⟨a.2, b.2, fun r c => t.get [r, c]⟩ ∧
     MView.ofTensor (t.rename [m1, m2]) = MView.ofTensor t :=
